@@ -30,7 +30,7 @@ def nontrivial(run, I):
     return "c" if I.counts.get("ch_checked", 0) and not I.counts.get("ch_variants_coincide", 0) else None
 
 
-SIZES_OF_INTEREST = [1, 2, 3, 7, 31, 64, 255, 256, 257, 258, 511, 512, 513, 1025]
+SIZES_OF_INTEREST = [1, 2, 3, 7, 31, 64, 255, 256, 257, 258, 511, 512, 513, 1025, 1, 2, 257, 4096, 4097, 5001]
 
 
 def build_state(case):
